@@ -220,6 +220,17 @@ theorem stat_eq {C : Ref → Bytes} {s : St} (h : Inv C s) (r : Ref) :
     simp only at hl
     simp [hl]
 
+/-- a batch stat calls back exactly once for every requested ref that is visible (in request order), with
+the size of its content – also while the blob is both packed and still loose -/
+theorem statBlobs_eq {C : Ref → Bytes} {s : St} (h : Inv C s) : ∀ (refs : List Ref),
+    statBlobs s refs = (refs.filter (fun r => present s r)).map (fun r => (r, (C r).length))
+  | [] => rfl
+  | r :: rs => by
+    simp only [statBlobs, stat_eq h r, List.filter_cons]
+    by_cases hp : present s r = true
+    · simp [hp, statBlobs_eq h rs]
+    · simp [hp, statBlobs_eq h rs]
+
 theorem subFetch_eq {C : Ref → Bytes} {s : St} (h : Inv C s) (r : Ref) (off len : Nat) :
     subFetch s r off len =
       if present s r then (if off > (C r).length then .err else .ok (slice (C r) off len)) else .notExist := by
